@@ -962,6 +962,8 @@ class Interp:
         mod, _, attr = q.rpartition('.')
         if mod in self.repo.modules:
             return self.global_name(attr, self.repo.modules[mod])
+        if q in STDLIB_CONSTS:
+            return STDLIB_CONSTS[q]
         return ModRef(q)  # external module or external symbol
 
     def e_Tuple(self, node, env):
@@ -1058,6 +1060,11 @@ class Interp:
 
     def e_BinOp(self, node, env):
         return self.binop(node.op, self.eval(node.left, env), self.eval(node.right, env), node)
+
+    OPERATOR_BINOPS = {'add': ast.Add, 'sub': ast.Sub, 'mul': ast.Mult, 'floordiv': ast.FloorDiv, 'truediv': ast.Div, 'mod': ast.Mod, 'pow': ast.Pow,
+                       'lshift': ast.LShift, 'rshift': ast.RShift, 'or': ast.BitOr, 'and': ast.BitAnd, 'xor': ast.BitXor,
+                       'concat': ast.Add}
+    OPERATOR_CMPS = {'eq': '==', 'ne': '!=', 'lt': '<', 'le': '<=', 'gt': '>', 'ge': '>=', 'is': 'is', 'is_not': 'is not', 'contains': 'in'}
 
     def binop(self, op: ast.AST, a: Any, b: Any, node: ast.AST) -> Any:
         name = type(op).__name__
@@ -1272,6 +1279,8 @@ class Interp:
             q = f'{obj.name}.{name}'
             if obj.name in self.repo.modules:
                 return self.global_name(name, self.repo.modules[obj.name], node)
+            if q in STDLIB_CONSTS:
+                return STDLIB_CONSTS[q]  # a documented constant of the standard library (string.digits ...)
             return ModRef(q)
         if isinstance(obj, NTVal):
             if name in obj.ntc.fields:
@@ -1356,8 +1365,8 @@ class Interp:
                     raise Raised(ExcVal('KeyError', (idx,)))
                 return App('getitem', obj if is_concrete(obj) else App('dict', *obj.keys()), idx)
             raise Raised(ExcVal('KeyError', (idx,)))
-        if isinstance(obj, (list, tuple, str, bytes)):
-            if isinstance(idx, int):
+        if isinstance(obj, (list, tuple, str, bytes, range)):
+            if isinstance(idx, int) or (isinstance(obj, range) and isinstance(idx, slice)):
                 try:
                     return obj[idx]
                 except IndexError:
@@ -1465,6 +1474,20 @@ class Interp:
             return self.call(callee.func, callee.args + list(args), dict(callee.kwargs, **kwargs), node, env)
         if isinstance(callee, ModRef) and callee.name == 'functools.partial' and args:
             return PartialVal(args[0], args[1:], kwargs)
+        if isinstance(callee, ModRef) and callee.name.startswith('operator.') and not kwargs:
+            # the operator module spells the operators as functions: operator.or_(a, b) IS a | b
+            fn = callee.name.split('.', 1)[1].strip('_')
+            if fn in self.OPERATOR_BINOPS and len(args) == 2:
+                return self.binop(self.OPERATOR_BINOPS[fn](), args[0], args[1], node)
+            if fn in self.OPERATOR_CMPS and len(args) == 2:
+                a0, a1 = (args[1], args[0]) if fn == 'contains' else (args[0], args[1])  # contains(a, b) is `b in a`
+                return self.compare(self.OPERATOR_CMPS[fn], a0, a1, node)
+            if fn == 'not' and len(args) == 1:
+                return not self.truth(args[0])
+            if fn == 'neg' and len(args) == 1:
+                return self.binop(ast.Sub(), 0, args[0], node)
+            if fn == 'getitem' and len(args) == 2:
+                return self.subscript(args[0], args[1], node) if hasattr(self, 'subscript') else NotImplemented
         # a module-level function that did not exist when the checks were written (a helper a refactoring extracted) cannot have been meant
         # by any model of a hook: it is interpreted, whatever the domain of the check
         fresh_helper = isinstance(callee, FuncRef) and callee.fi is not None and callee.fi.cls is None and self.repo.is_fresh(callee.fi.qualname)
@@ -1485,8 +1508,12 @@ class Interp:
             if callee.name == 'collections.namedtuple' and len(args) == 2 and isinstance(args[0], str) and is_concrete(args[1]):
                 fields = args[1].replace(',', ' ').split() if isinstance(args[1], str) else list(args[1])
                 return NTClass(args[0], tuple(fields))
-            if callee.name == 'itertools.chain' and all(isinstance(a, (list, tuple)) for a in args) and not kwargs:
-                return [x for a in args for x in a]  # concatenation of sequences of known length
+            if callee.name == 'itertools.chain' and not kwargs and all(isinstance(a, (list, tuple, LazyGen, dict, set, frozenset)) for a in args):
+                return [x for a in args for x in self.iterate(a, node)]  # concatenation of sequences of known length
+            if callee.name == 'itertools.chain.from_iterable' and len(args) == 1 and not kwargs and isinstance(args[0], (list, tuple, LazyGen)):
+                outer = list(self.iterate(args[0], node))
+                if all(isinstance(a, (list, tuple, LazyGen, dict, set, frozenset)) for a in outer):
+                    return [x for a in outer for x in self.iterate(a, node)]
             if callee.name in PURE_STDLIB and all(is_concrete(a) for a in args) and not kwargs:
                 try:
                     return PURE_STDLIB[callee.name](*args)
@@ -2117,6 +2144,8 @@ def sort_key_kind(it: 'Interp', f: Any) -> str:
 import json as _json
 
 PURE_STDLIB = {'json.dumps': _json.dumps, 'json.loads': _json.loads}
+import string as _string
+STDLIB_CONSTS = {f'string.{n}': getattr(_string, n) for n in ('ascii_letters', 'ascii_lowercase', 'ascii_uppercase', 'digits', 'hexdigits', 'octdigits', 'punctuation', 'whitespace', 'printable')}
 
 SAFE_BUILTINS = {'abs', 'bool', 'bytes', 'chr', 'divmod', 'float', 'hex', 'int', 'len', 'max', 'min', 'oct', 'ord', 'pow',
                  'round', 'str', 'sum', 'bin', 'bytearray'}
